@@ -507,3 +507,94 @@ def case_string_template_and_textwrap():
     import string
     import textwrap
     return string.Template("$a-$b").substitute(a=1, b="x"), textwrap.indent("a\nb", "  "), textwrap.dedent("  a\n  b"), string.ascii_lowercase[:3]
+
+
+def case_genexp_late_binding():
+    # generator expressions kept in a dict and consumed after the loop: free names have their final values
+    names = ["a", "b", "c"]
+    kept = {n: (m for m in names if m != n) for n in names}
+    out1 = {k: list(v) for k, v in kept.items()}
+    gens = []
+    for k in range(3):
+        gens.append(x + k for x in (10, 20))
+    out2 = [list(g) for g in gens]
+    src = [1, 2, 3]
+    g = (y * 2 for y in src)           # first iterable evaluated now
+    src = [7]
+    factor = 3
+    h = (y * factor for y in [1, 2])
+    first = next(h)
+    factor = 5
+    rest = list(h)
+    return [out1, out2, list(g), first, rest]
+
+
+def case_genexp_exhausted_twice():
+    import itertools
+    data = [[1, 2], [3]]
+    flat = itertools.chain.from_iterable(x for x in data)
+    a = []
+    b = []
+    a.extend(flat)
+    b.extend(flat)
+    counts = (len(x) for x in data)
+    s1 = sum(counts)
+    s2 = sum(counts)
+    return [a, b, s1, s2]
+
+
+def case_generator_lazy_and_suspended():
+    log = []
+
+    def groups(items):
+        for it in items:
+            members = [it]
+            log.append(("open", it))
+            yield members
+            members.append(it * 10)        # appended after the consumer has seen the list
+            log.append(("closed", it))
+    early = [list(m) for m in groups([1, 2])]
+    late = list(groups([3, 4]))
+    g = groups([5, 6])
+    first = next(g)
+    snapshot = list(log)
+    return [early, late, first, snapshot]
+
+
+def case_generator_send_return_close():
+    def acc():
+        total = 0
+        while True:
+            x = yield total
+            if x is None:
+                return total
+            total += x
+
+    def outer():
+        r = yield from acc()
+        yield ("returned", r)
+    g = outer()
+    out = [next(g), g.send(3), g.send(4), g.send(None)]
+    trail = []
+
+    def res():
+        try:
+            yield 1
+            yield 2
+        finally:
+            trail.append("cleanup")
+    r = res()
+    next(r)
+    r.close()
+    return [out, trail, list(r)]
+
+
+def case_generator_recursive_walk():
+    def walk(t):
+        yield t[0]
+        for c in t[1]:
+            yield from walk(c)
+    tree = (1, [(2, [(3, []), (4, [])]), (5, [(6, [])])])
+    it = walk(tree)
+    head = [next(it), next(it)]
+    return [head, list(it), any(x > 3 for x in walk(tree))]
